@@ -13,7 +13,7 @@ let parse_re (s : string) : re =
   let rec go () =
     let t = next () in
     match t.[0] with
-    | 'e' -> Eps | '.' -> Any
+    | 'e' -> Eps | '.' -> Any | 'z' -> Emp
     | 'c' -> Chr (n_of_int (int_of_string (String.sub t 1 (String.length t - 1))))
     | 'k' -> let parts = split_on ',' (String.sub t 2 (String.length t - 2)) in
       Cls (t.[1] = '1', List.filter_map (fun x -> if x = "" then None else Some (n_of_int (int_of_string x))) parts)
@@ -47,24 +47,24 @@ let run () = iter_lines (fun line ->
          end
        end
      | _ -> report "BAD" "regex line" line)
-  | 'u', [ast; top; ln; res] ->
+  | ('u' | 'k'), [ast; top; ln; res] ->
     (* user-style notation: `]` outside a class unescaped, class members unescaped where legal *)
     let r = parse_re ast in
     (match split_on ' ' ln with
      | [s; _nl] ->
        let s = text_of_hex s in
        let m = full r s in
-       bump (Printf.sprintf "regex(user notation):match=%b" m);
-       if hex_of_bytes (utf8_encode (print_user r)) <> top then report "BAD" "user-notation printer mismatch between harness and model" line
+       bump (Printf.sprintf "regex(user notation%s):match=%b" (if kind = 'k' then ", counted repetition" else "") m);
+       (* with a counted repetition the tree is the sequence it stands for: the notation `{n}`, `{n,m}`, `{n,}` is the harness's *)
+       if kind = 'u' && hex_of_bytes (utf8_encode (print_user r)) <> top then report "BAD" "user-notation printer mismatch between harness and model" line
        else if res <> b2s m then begin
          (* the listed known finding: a `]` that stands for itself after a complete character class is pulled into that class *)
          let rec flat = function Seq (a, b) -> flat a @ flat b | x -> [x] in
+         let rec has p = function Seq (a, b) | Alt (a, b) -> has p a || has p b | Star a -> has p a | x -> p x in
+         let is_cls = (function Cls (_, _) -> true | _ -> false) and is_rb = (function Chr c -> int_of_n c = 93 | _ -> false) in
          let rec after_class seen = function
            | [] -> false
-           | Cls (_, _) :: t -> after_class true t
-           | Chr c :: t -> (seen && int_of_n c = 93) || after_class seen t
-           | Star (Chr c) :: t -> (seen && int_of_n c = 93) || after_class seen t
-           | _ :: t -> after_class seen t in
+           | x :: t -> (seen && has is_rb x) || after_class (seen || has is_cls x) t in
          if after_class false (flat r) then
            report "SPEC:C04" "known:regex-class-heuristic a closing square bracket that stands for itself after a complete character class is taken into that class ([a]b] is read as [a\\]b]): the expectation does not match the lines of the expression as written" line
          else begin
